@@ -64,7 +64,7 @@ def run_cases(cases, profile='dev', timeout_each=5.0, log=print):
     return results
 
 
-def run_fsize(kind, model_limit, profile='dev', model_size=None):
+def run_fsize(kind, model_limit, profile='dev', model_size=None, stale_tmp=None):
     """native fault injection for C13: the real path-based save under RLIMIT_FSIZE (SIGXFSZ ignored, so writes fail with EFBIG)"""
     import tempfile, shutil, resource, signal
     exe = build(profile)
@@ -80,6 +80,8 @@ def run_fsize(kind, model_limit, profile='dev', model_size=None):
         ext = 'csv' if kind == 'csv' else 'xlsx'
         dest = os.path.join(d, 'out.' + ext)
         open(dest, 'wb').write(b'OLD')
+        if stale_tmp:   # temp file of an earlier, killed save
+            open(dest + 'tmp', 'wb').write(b'S' * ((size + 5000) if stale_tmp == 'longer' else max(0, size // 2)))
         def pre():
             signal.signal(signal.SIGXFSZ, signal.SIG_IGN)
             resource.setrlimit(resource.RLIMIT_FSIZE, (limit, limit))
